@@ -326,6 +326,7 @@ structure EmitsPost (H : Nat × Nat → Prop) (L : Lay) (e e' : Enc) : Prop wher
   lay : L H e'.buf e.offset e'.offset
   canon : e'.canonicalForm = e.canonicalForm
   ne : e'.nameEncoding = e.nameEncoding
+  max : e'.maxSize = e.maxSize
 
 /-- from every appending state satisfying the candidate-table invariant (no lower-casing mode on),
 a successful `f` leaves layout `L` between the old and the new offset, touches nothing below the
@@ -342,7 +343,7 @@ theorem emits_emitSlice (d : Bytes) : Emits (fun e => e.emitSlice d) (laySeg d) 
   simp only at h
   obtain ⟨h1, h2, h3, h4⟩ := ptrInvH_emitSlice e e' d happ hinv h
   have hoff : e'.offset = e.offset + d.length := by rw [h2, h3, happ]; simp
-  refine ⟨h1, h2, by omega, by rw [h3, happ]; simp, ⟨by rw [h3, happ]; exact segAt_append _ _, hoff⟩, ?_, ?_⟩
+  refine ⟨h1, h2, by omega, by rw [h3, happ]; simp, ⟨by rw [h3, happ]; exact segAt_append _ _, hoff⟩, ?_, ?_, ?_⟩
   all_goals
     rw [emitSlice_app _ _ happ] at h
     split at h
@@ -360,14 +361,14 @@ theorem emits_nothing : Emits emitNothing layEmpty := by
   intro H e e' happ hinv _ _ h
   simp only [emitNothing, ERes.ok.injEq, true_and] at h
   subst h
-  exact ⟨hinv, happ, Nat.le_refl _, by rw [happ]; simp, ⟨rfl, by omega⟩, rfl, rfl⟩
+  exact ⟨hinv, happ, Nat.le_refl _, by rw [happ]; simp, ⟨rfl, by omega⟩, rfl, rfl, rfl⟩
 
 theorem emits_emitName (n : Name) (hwf : n.WF) : Emits (fun e => Name.emit e n) (layName n.labels) := by
   intro H e e' happ hinv hH hnl h
   have hp := emit_post hwf happ hinv hH h
   have hem : (emitted e n).labels = n.labels := by simp [emitted, hnl.2]
   obtain ⟨x, hx⟩ := hp.ext
-  refine ⟨hp.inv, hp.app, ?_, by rw [hx, happ]; simp, by rw [← hem]; exact hp.laid, hp.canon, hp.ne⟩
+  refine ⟨hp.inv, hp.app, ?_, by rw [hx, happ]; simp, by rw [← hem]; exact hp.laid, hp.canon, hp.ne, hp.max⟩
   obtain ⟨F, hl, _⟩ := hp.laid
   exact Nat.le_of_lt hl.pos_lt_end
 
@@ -384,7 +385,7 @@ theorem emits_seq {f g : Enc → ERes Unit} {L1 L2 : Lay} (hL1 : IsLayout L1) (h
     have hpre : e'.buf.take e1.buf.length = e1.buf := by rw [← p1.app]; exact p2.pre
     have hq1 : e1.offset ≤ e1.buf.length := by rw [p1.app]; exact Nat.le_refl _
     refine ⟨p2.inv, p2.app, by have := p1.le; have := p2.le; omega, ?_, ⟨e1.offset, ?_, p2.lay⟩,
-      by rw [p2.canon, p1.canon], by rw [p2.ne, p1.ne]⟩
+      by rw [p2.canon, p1.canon], by rw [p2.ne, p1.ne], by rw [p2.max, p1.max]⟩
     · have := congrArg (List.take e.offset) p2.pre
       rw [List.take_take, Nat.min_eq_left p1.le] at this
       rw [this, p1.pre]
@@ -406,7 +407,7 @@ theorem emits_withRdataBehavior {f : Enc → ERes Unit} {L : Lay} (hf : Emits f 
       simp only [hnl.1]
       cases r <;> simp [Enc.rdataNameEncoding, hnl.2]
     have p := hf H { e with nameEncoding := Enc.rdataNameEncoding r e.canonicalForm e.nameEncoding } e1 happ hinv hH hnl' hfe
-    exact ⟨p.inv, p.app, p.le, p.pre, p.lay, p.canon, rfl⟩
+    exact ⟨p.inv, p.app, p.le, p.pre, p.lay, p.canon, rfl, p.max⟩
   | err k e1 => rw [hfe] at h; simp [Enc.restoreNameEncoding] at h
   | panic s => rw [hfe] at h; simp [Enc.restoreNameEncoding] at h
 
@@ -452,7 +453,7 @@ theorem emits_lenPrefixed {body : Enc → ERes Unit} {L : Lay} (hL : IsLayout L)
         intro i hi
         rw [hspec]
         exact getElem?_splice e2.buf _ e.offset 2 i (by simp) hin hi
-      refine ⟨ptrInvH_mono hinv3 (fun iv _ _ hiv => hiv.1), by omega, by omega, ?_, ?_, ?_, ?_⟩
+      refine ⟨ptrInvH_mono hinv3 (fun iv _ _ hiv => hiv.1), by omega, by omega, ?_, ?_, ?_, ?_, ?_⟩
       · -- nothing below the old offset moved
         apply List.ext_getElem?
         intro i
@@ -481,6 +482,7 @@ theorem emits_lenPrefixed {body : Enc → ERes Unit} {L : Lay} (hL : IsLayout L)
           exact hL.mono hl2 (fun iv _ _ hiv => hiv.1)
       · rw [hspec]; simp only; exact p2.canon.trans (by rw [he1])
       · rw [hspec]; simp only; exact p2.ne.trans (by rw [he1])
+      · rw [hspec]; simp only; exact p2.max.trans (by rw [he1])
 /-! ### RDATA, records, questions: what the emitters leave -/
 
 def u16b (v : Nat) : Bytes := [v / 256 % 256, v % 256]
@@ -875,4 +877,129 @@ theorem reads_record {H : Nat × Nat → Prop} {opq : Nat → Rd Bytes} {buf : B
       (reads_rdataBody r.rdata hpv hty hnw htr)
     refine Reads.bind (Reads.splitOff hb.2 hrd) ?_
     exact Reads.pure' _ _ (by simp [Record.fq])
+/-! ### sections: `emit_iter` when everything fits, and the decoder's loops -/
+
+/-- layouts one after the other -/
+def layAll : List Lay → Lay
+  | [] => layEmpty
+  | L :: Ls => laySeq L (layAll Ls)
+
+theorem isLayout_all : ∀ (Ls : List Lay), (∀ L ∈ Ls, IsLayout L) → IsLayout (layAll Ls)
+  | [], _ => isLayout_empty
+  | L :: Ls, h => isLayout_seq (h L (by simp)) (isLayout_all Ls (fun x hx => h x (by simp [hx])))
+
+/-- `emit_iter` that wrote every item leaves the items' layouts one after the other -/
+theorem emitIterFrom_layout {α} (toEmit : α → Enc → ERes Unit) (toLay : α → Lay) :
+    ∀ (xs : List α) (H : Nat × Nat → Prop) (e e' : Enc) (c n : Nat),
+    (∀ x ∈ xs, Emits (toEmit x) (toLay x)) → (∀ x ∈ xs, IsLayout (toLay x)) →
+    e.offset = e.buf.length → PtrInvH H e → (∀ a b, e.offset ≤ a → H (a, b)) → NoLower e →
+    Enc.emitIterFrom e (xs.map toEmit) c = .ok n e' → EmitsPost H (layAll (xs.map toLay)) e e'
+  | [], H, e, e', c, n, _, _, happ, hinv, _, _, h => by
+    simp only [List.map_nil, Enc.emitIterFrom, ERes.ok.injEq] at h
+    obtain ⟨_, rfl⟩ := h
+    exact ⟨hinv, happ, Nat.le_refl _, by rw [happ]; simp, ⟨rfl, by omega⟩, rfl, rfl, rfl⟩
+  | x :: xs, H, e, e', c, n, hE, hI, happ, hinv, hH, hnl, h => by
+    simp only [List.map_cons] at h ⊢
+    unfold Enc.emitIterFrom at h
+    simp only at h
+    cases hfe : toEmit x e with
+    | ok u e1 =>
+      rw [hfe] at h
+      simp only at h
+      have p1 := hE x (by simp) H e e1 happ hinv hH hnl hfe
+      have hnl1 : NoLower e1 := ⟨by rw [p1.canon]; exact hnl.1, by rw [p1.ne]; exact hnl.2⟩
+      have p2 := emitIterFrom_layout toEmit toLay xs H e1 e' (c + 1) n (fun y hy => hE y (by simp [hy]))
+        (fun y hy => hI y (by simp [hy])) p1.app p1.inv (fun a b hab => hH a b (by have := p1.le; omega)) hnl1 h
+      have hpre : e'.buf.take e1.buf.length = e1.buf := by rw [← p1.app]; exact p2.pre
+      have hq1 : e1.offset ≤ e1.buf.length := by rw [p1.app]; exact Nat.le_refl _
+      refine ⟨p2.inv, p2.app, by have := p1.le; have := p2.le; omega, ?_, ⟨e1.offset, ?_, p2.lay⟩,
+        by rw [p2.canon, p1.canon], by rw [p2.ne, p1.ne], by rw [p2.max, p1.max]⟩
+      · have := congrArg (List.take e.offset) p2.pre
+        rw [List.take_take, Nat.min_eq_left p1.le] at this
+        rw [this, p1.pre]
+      · exact (hI x (by simp)).stable p1.lay (agreeOn_prefix hq1 hpre)
+    | err k e1 => rw [hfe] at h; cases k <;> simp at h
+    | panic s => rw [hfe] at h; simp at h
+
+/-- the decoder's question loop over the questions' layouts -/
+theorem reads_queries {H : Nat × Nat → Prop} {buf : Bytes} : ∀ (qs : List Query) (acc : List Query) (p e : Nat),
+    (∀ q ∈ qs, q.name.WF ∧ q.qtype < 65536 ∧ q.qclass < 65536) →
+    layAll (qs.map layQuery) H buf p e →
+    Reads (readQueries qs.length acc) buf p
+      (acc ++ qs.map fun q => { q with name := { q.name with fqdn := true } }) e
+  | [], acc, p, e, _, h => by
+    obtain ⟨rfl, _⟩ := h
+    simp only [List.length_nil, readQueries, List.map_nil, List.append_nil]
+    exact Reads.pure _ _ _
+  | q :: qs, acc, p, e, hwf, h => by
+    obtain ⟨m, l1, l2⟩ := h
+    simp only [List.length_cons, readQueries]
+    refine Reads.bind (fun t => ⟨t + 1, rfl⟩ : Reads (Rd.tick) buf p () p) ?_
+    have hq := hwf q (by simp)
+    refine Reads.bind (reads_query q hq.1 hq.2.1 hq.2.2 l1) ?_
+    have := reads_queries qs (acc ++ [{ q with name := { q.name with fqdn := true } }]) m e
+      (fun x hx => hwf x (by simp [hx])) l2
+    simpa [List.append_assoc] using this
+
+/-- a record that `read_records` passes on to the section's list: not OPT/SIG/TSIG, and
+`Update0` only in UPDATE messages -/
+def SectionOK (op : Nat) (r : Record) : Prop :=
+  RecWF r ∧ r.rtype ≠ T_SIG ∧ r.rtype ≠ T_TSIG ∧ (r.rdata.isUpdate = true → op = OP_UPDATE)
+
+theorem fq_isUpdate (r : Record) : r.fq.rdata.isUpdate = r.rdata.isUpdate := by
+  cases hd : r.rdata <;> simp [Record.fq, hd, RData.fq, RData.isUpdate]
+
+/-- the decoder's record loop over the records' layouts (any section) -/
+theorem reads_records {H : Nat × Nat → Prop} {opq : Nat → Rd Bytes} {buf : Bytes} (isAdd : Bool) (op : Nat) :
+    ∀ (rs : List Record) (acc : List Record) (edns : Option Edns) (p e : Nat),
+    (∀ r ∈ rs, SectionOK op r) → layAll (rs.map layRecord) H buf p e →
+    Reads (readRecords opq isAdd op rs.length (acc, edns, none)) buf p
+      (acc ++ rs.map Record.fq, edns, none) e
+  | [], acc, edns, p, e, _, h => by
+    obtain ⟨rfl, _⟩ := h
+    simp only [List.length_nil, readRecords, List.map_nil, List.append_nil]
+    exact Reads.pure _ _ _
+  | r :: rs, acc, edns, p, e, hwf, h => by
+    obtain ⟨m, l1, l2⟩ := h
+    obtain ⟨hr, hs1, hs2, hup⟩ := hwf r (by simp)
+    simp only [List.length_cons, readRecords]
+    refine Reads.bind (fun t => ⟨t + 1, rfl⟩ : Reads (Rd.tick) buf p () p) ?_
+    refine Reads.bind (reads_record r hr l1) ?_
+    have ht : r.fq.rtype = r.rtype := rfl
+    have ih := reads_records (opq := opq) isAdd op rs (acc ++ [r.fq]) edns m e (fun x hx => hwf x (by simp [hx])) l2
+    have ih' : Reads (readRecords opq isAdd op rs.length (acc ++ [r.fq], edns, none)) buf m
+        (acc ++ (r :: rs).map Record.fq, edns, none) e := by
+      simpa [List.append_assoc] using ih
+    rw [fq_isUpdate, ht]
+    by_cases hu : r.rdata.isUpdate = true
+    · have hop := hup hu
+      rw [if_neg (by intro hc; exact hc.1 hop)]
+      simp only [Option.isSome_none, Bool.false_eq_true, ↓reduceIte]
+      rw [if_neg (by intro hc; rcases hc.2 with h1 | h1 | h1; exact hr.rtype.2.1 h1; exact hs1 h1; exact hs2 h1)]
+      cases isAdd with
+      | false => simpa using ih'
+      | true =>
+        simp only [Bool.not_true, Bool.false_eq_true, ↓reduceIte]
+        have hd : r.fq.rdata = .update0 r.rtype := by
+          rcases hr.data with h1 | h1
+          · simp [Record.fq, h1, RData.fq]
+          · exfalso
+            cases hdd : r.rdata <;> rw [hdd] at hu h1 <;> simp [RData.isUpdate, RData.proved] at hu h1
+        rw [hd]
+        simp only
+        rw [if_neg hr.rtype.2.1]
+        exact ih'
+    · rw [if_neg (by intro hc; exact hu hc.2.2)]
+      simp only [Option.isSome_none, Bool.false_eq_true, ↓reduceIte]
+      rw [if_neg (by intro hc; rcases hc.2 with h1 | h1 | h1; exact hr.rtype.2.1 h1; exact hs1 h1; exact hs2 h1)]
+      cases isAdd with
+      | false => simpa using ih'
+      | true =>
+        simp only [Bool.not_true, Bool.false_eq_true, ↓reduceIte]
+        have hpv : r.rdata.proved = true := by
+          rcases hr.data with h1 | h1
+          · exfalso; rw [h1] at hu; simp [RData.isUpdate] at hu
+          · exact h1.1
+        cases hdd : r.rdata <;> rw [hdd] at hpv <;> simp [RData.proved] at hpv <;>
+          simp only [Record.fq, hdd, RData.fq] <;> (simp only [Record.fq, hdd, RData.fq] at ih'; exact ih')
 end HickoryVerif.C02
